@@ -186,8 +186,12 @@ def renderParts (sep : Sep) : List Part → List Char
 
 def Formula.renderStoich (f : Formula) : List Char := renderParts f.sep f.parts
 
+def renderSuffix : Option (List Char) → List Char
+  | none => []
+  | some s => s
+
 def Formula.render (f : Formula) : List Char :=
-  f.prefixes.flatten ++ (f.renderStoich ++ (renderCharge f.charge ++ (match f.suffix with | none => [] | some s => s)))
+  f.prefixes.flatten ++ (f.renderStoich ++ (renderCharge f.charge ++ renderSuffix f.suffix))
 
 def Formula.renderStr (f : Formula) : String := String.ofList f.render
 
